@@ -1,6 +1,7 @@
-"""C08 - decided with the load-pipeline specification; see loadcheck.py."""
+"""C08 - load-pipeline exploration (model level + replay) and text-level
+fuzzing of the real load functions."""
 import loadcheck
 
 
 def run(tier, replay=None):
-    return loadcheck.run('C08', tier, replay)
+    return loadcheck.run('C08', tier, replay, extra=loadcheck.c08_fuzz)
